@@ -304,7 +304,7 @@ type archiveableDataBlock struct {
 	dataBlock
 	earliestTime     time.Time
 	requestedSamples int
-	complete         chan struct{}
+	complete         chan dataBlock // the filled block is handed to the writer goroutine on this channel
 	active           bool
 }
 
@@ -420,8 +420,8 @@ func (ds *AnySource) archiveNewDataBlock(block *dataBlock) {
 
 	requestFilled := ab.nSamp >= ab.requestedSamples
 	if requestFilled {
-		ab.active = false // before close(): the writer goroutine copies the struct as soon as complete is closed
-		close(ab.complete)
+		ab.active = false
+		ab.complete <- ab.dataBlock // the writer gets its own copy: a new request may re-use ds.archiveBlock at once
 	}
 }
 
@@ -1093,11 +1093,10 @@ func (ds *AnySource) StopTriggerCoupling() error {
 	return ds.broker.StopTriggerCoupling()
 }
 
-func (ds *AnySource) writeNPZData(file *os.File) error {
+func (ds *AnySource) writeNPZData(file *os.File, ab *dataBlock) error {
 	wz := npz.NewWriter(file)
 	defer wz.Close()
 
-	ab := ds.archiveBlock
 	channelNames := ds.ChannelNames()
 	firstFrame := make([]int64, len(ab.segments))
 	for i, stream := range ab.segments {
@@ -1127,14 +1126,15 @@ func (ds *AnySource) ArchiveDataBlock(N int, file *os.File, finalName string) er
 	ds.archiveBlock.earliestTime = time.Now()
 	ds.archiveBlock.requestedSamples = N
 	ds.archiveBlock.segments = nil
-	ds.archiveBlock.complete = make(chan struct{})
+	complete := make(chan dataBlock, 1)
+	ds.archiveBlock.complete = complete
 	ds.archiveBlock.active = true
 
 	// Launch this goroutine, which will execute when the ds.archiveBlock.complete channel is closed
 	go func() {
 		// When the archiveBlock is filled, write to npz file.
-		<-ds.archiveBlock.complete
-		if err := ds.writeNPZData(file); err != nil {
+		filled := <-complete
+		if err := ds.writeNPZData(file, &filled); err != nil {
 			file.Close()
 		}
 
